@@ -72,6 +72,15 @@ class UndecidedValue(GenericValue):
                 if has_star_expression(node):
                     # containers with star-expressions are not changed
                     return
+                if isinstance(node, ast.Call) and hasattr(adapter, "check_type"):
+                    # the arguments of a call are only the fields of the value
+                    # if the class itself is called (and not some other function)
+                    try:
+                        call_type = self._context.eval(node.func)
+                    except Exception:
+                        return
+                    if not (isinstance(call_type, type) and adapter.check_type(call_type)):
+                        return
                 for item in adapter.items(obj, node):
                     yield from handle(item.node, item.value)
                 return
